@@ -49,3 +49,21 @@ Definition run_replace_sorted (d : list (str * list str * list (list str))) (cat
   | Ok None => VN
   | Ok (Some (d', m)) => VL [vdoc (sort_doc d'); vlist (vpair vstr vstr) m]
   end.
+
+(* ---- PDB text codec *)
+From RV Require Import Model.PdbLine.
+Definition mkrec (t : str) (serial : Z) (name alt resname chain : str) (resseq : Z) (icode : str)
+           (x y z occ b : Z) (element charge : str) (model : Z) : atom_rec :=
+  {| ar_type := t; ar_serial := serial; ar_name := name; ar_alt := alt; ar_resname := resname; ar_chain := chain;
+     ar_resseq := resseq; ar_icode := icode; ar_x := x; ar_y := y; ar_z := z; ar_occ := occ; ar_b := b;
+     ar_element := element; ar_charge := charge; ar_model := model |}.
+Definition voz (o : option Z) : val := match o with Some z => VZ z | None => VN end.
+Definition vparsed (p : parsed_rec) : val :=
+  VL [vstr (p_type p); voz (p_serial p); vstr (p_name p); vstr (p_alt p); vstr (p_resname p); vstr (p_chain p);
+      voz (p_resseq p); vstr (p_icode p); voz (p_x p); voz (p_y p); voz (p_z p); voz (p_occ p); voz (p_b p);
+      vstr (p_element p); vstr (p_charge p); VZ (p_model p)].
+Definition run_format_line (a : atom_rec) : val := vstr (format_line a).
+Definition run_parse_pdb (lines : list str) : val := vlist vparsed (parse_pdb lines).
+Definition run_write_pdb (l : list atom_rec) : val := vlist vstr (write_pdb l).
+(* parse (format a) as one value: the round trip inside the model *)
+Definition run_roundtrip_line (a : atom_rec) : val := vlist vparsed (parse_lines (ar_model a) [format_line a]).
